@@ -65,7 +65,9 @@ def main():
         if do_demo and os.path.exists(f'{sd}/run.sh'):
             rc_with, out_with = sh(f'bash {sd}/run.sh', cwd=wt, env={'CARGO_TARGET_DIR': f'{wt}/target'}, timeout=2400)
             meta['demo_with_change'] = {'exit': rc_with, 'tail': out_with[-800:]}
-        # 3. our check against the mutated tree
+        # 3. our check against the mutated tree (a demonstration script may have reverted or re-applied things: start again
+        #    from a clean tree with exactly the patch)
+        sh(f'git checkout -- . && git apply {patch}', cwd=wt)
         cfg = 'paths=[' + ','.join(f'"{wt}/{c}"' for c in crates) + ']'
         rc, out = sh(f"cargo build --release --offline -p {group} --config '{cfg}' 2>&1 | tail -20", cwd='/verif/harness', env={'CARGO_TARGET_DIR': f'{wt}/th'})
         if 'error' in out and 'Finished' not in out:
